@@ -109,7 +109,9 @@ def run(ctx, env):
         pth = prog.path_to(root, lambda nd: nd["path"] == tp, avoid_pred=is_take_mapres) if bad else None
         ctx.ob("R14.2", tp, "below-take", not bad, "reachable without passing map_res(take(..)): %s" % pth if bad else "every call path passes a map_res(take(..)) closure instance")
     ca = CacheAccess(prog, an)
-    wb = sorted(set(w["body"].path for w in ca.writes))
+    # writers through the accepted accessors and anything else that holds a cache mutably (retain / clear / entry /
+    # an escaping &mut: R6.1 reports those under C06; here they must at least sit below the length check)
+    wb = sorted(set(w["body"].path for w in ca.writes) | set(v[0].path for v in ca.violations if "parse_le" not in v[0].path))
     for p in wb:
         bad = prog.node_dominated_by(root, lambda nd: nd["path"] == p, is_take_mapres)
         ctx.ob("R14.2", p, "cache-write-below-take", not bad, "cache-writing function reachable without a preceding take(..)" if bad else "all cache writes happen below a length-delimited body")
